@@ -16,6 +16,165 @@ import (
 	"strings"
 )
 
+// ---- lock exits: for every function of the reload / balancer-table code that takes a mutex itself, every way out of
+// the function (each `return` and the end of the body) with the number of locks still held there and whether a
+// deferred Unlock covers it.  Structural walk: a branch that returns does not affect the code after it.
+
+type lockExit struct {
+	fn       string
+	line     int
+	released bool
+}
+
+func lockCallKind(e ast.Expr) int { // +1 Lock/RLock, -1 Unlock/RUnlock, 0 other
+	c, ok := e.(*ast.CallExpr)
+	if !ok {
+		return 0
+	}
+	sel, ok := c.Fun.(*ast.SelectorExpr)
+	if !ok || len(c.Args) != 0 {
+		return 0
+	}
+	switch sel.Sel.Name {
+	case "Lock", "RLock":
+		return 1
+	case "Unlock", "RUnlock":
+		return -1
+	}
+	return 0
+}
+
+type lockWalker struct {
+	fset     *token.FileSet
+	fn       string
+	deferred bool
+	exits    []lockExit
+	locks    int
+}
+
+// walk returns (held after the list, terminated)
+func (w *lockWalker) walk(stmts []ast.Stmt, held int) (int, bool) {
+	for _, st := range stmts {
+		switch v := st.(type) {
+		case *ast.ExprStmt:
+			k := lockCallKind(v.X)
+			if k > 0 {
+				w.locks++
+			}
+			held += k
+		case *ast.DeferStmt:
+			if lockCallKind(v.Call) < 0 {
+				w.deferred = true
+			}
+		case *ast.ReturnStmt:
+			w.exits = append(w.exits, lockExit{w.fn, w.fset.Position(v.Pos()).Line, held <= 0 || w.deferred})
+			return held, true
+		case *ast.BlockStmt:
+			h, t := w.walk(v.List, held)
+			if t {
+				return h, true
+			}
+			held = h
+		case *ast.IfStmt:
+			h1, t1 := w.walk(v.Body.List, held)
+			h2, t2 := held, false
+			if v.Else != nil {
+				switch e := v.Else.(type) {
+				case *ast.BlockStmt:
+					h2, t2 = w.walk(e.List, held)
+				case *ast.IfStmt:
+					h2, t2 = w.walk([]ast.Stmt{e}, held)
+				}
+			}
+			switch {
+			case t1 && t2:
+				return held, true
+			case t1:
+				held = h2
+			case t2:
+				held = h1
+			default:
+				if h1 > h2 {
+					held = h1
+				} else {
+					held = h2
+				}
+			}
+		case *ast.ForStmt:
+			h, _ := w.walk(v.Body.List, held)
+			if h > held {
+				held = h
+			}
+		case *ast.RangeStmt:
+			h, _ := w.walk(v.Body.List, held)
+			if h > held {
+				held = h
+			}
+		case *ast.SwitchStmt:
+			for _, c := range v.Body.List {
+				if cc, ok := c.(*ast.CaseClause); ok {
+					h, t := w.walk(cc.Body, held)
+					if !t && h > held {
+						held = h
+					}
+				}
+			}
+		case *ast.TypeSwitchStmt:
+			for _, c := range v.Body.List {
+				if cc, ok := c.(*ast.CaseClause); ok {
+					h, t := w.walk(cc.Body, held)
+					if !t && h > held {
+						held = h
+					}
+				}
+			}
+		case *ast.LabeledStmt:
+			h, t := w.walk([]ast.Stmt{v.Stmt}, held)
+			if t {
+				return h, true
+			}
+			held = h
+		}
+	}
+	return held, false
+}
+
+func lockExitsOf(repo string, rels []string) ([]lockExit, error) {
+	var out []lockExit
+	fset := token.NewFileSet()
+	for _, rel := range rels {
+		f, err := parser.ParseFile(fset, filepath.Join(repo, rel), nil, 0)
+		if err != nil {
+			return nil, err
+		}
+		for _, d := range f.Decls {
+			fd, ok := d.(*ast.FuncDecl)
+			if !ok || fd.Body == nil {
+				continue
+			}
+			name := fd.Name.Name
+			if fd.Recv != nil && len(fd.Recv.List) == 1 {
+				t := fd.Recv.List[0].Type
+				if st, ok := t.(*ast.StarExpr); ok {
+					t = st.X
+				}
+				if id, ok := t.(*ast.Ident); ok {
+					name = id.Name + "." + name
+				}
+			}
+			w := &lockWalker{fset: fset, fn: filepath.Base(rel) + ":" + name}
+			h, term := w.walk(fd.Body.List, 0)
+			if !term {
+				w.exits = append(w.exits, lockExit{w.fn, fset.Position(fd.Body.Rbrace).Line, h <= 0 || w.deferred})
+			}
+			if w.locks > 0 { // only functions that take a lock themselves
+				out = append(out, w.exits...)
+			}
+		}
+	}
+	return out, nil
+}
+
 func init() {
 	register("C15", func(repo string) (string, error) {
 		dir := filepath.Join(repo, "bfe_server")
@@ -219,6 +378,30 @@ func init() {
 				sep = ""
 			}
 			fmt.Fprintf(&b, "  (%s, %s)%s  -- %s:%d\n", leanStr(a.fn), leanStr(a.what), sep, a.file, a.line)
+		}
+		b.WriteString("]\n\n")
+		exits, err := lockExitsOf(repo, []string{"bfe_balance/bal_table.go", "bfe_balance/bal_gslb/bal_gslb.go",
+			"bfe_server/bfe_confdata_load.go", "bfe_server/bfe_server.go", "bfe_server/reverseproxy.go", "bfe_route/bfe_cluster/bfe_cluster.go"})
+		if err != nil {
+			return "", err
+		}
+		haveReload := false
+		for _, e := range exits {
+			if e.fn == "bal_table.go:BalTable.BalTableReload" {
+				haveReload = true
+			}
+		}
+		if !haveReload {
+			return "", fmt.Errorf("bal_table.go: BalTable.BalTableReload no longer takes a lock itself")
+		}
+		b.WriteString("/-- every exit (return statement / end of body, by line) of every function of the reload and balancer-table code\n    that takes a mutex itself: (file:function, line, no lock held there or a deferred Unlock covers it) -/\n")
+		b.WriteString("def lockExits : List (String × Nat × Bool) := [\n")
+		for i, e := range exits {
+			sep := ","
+			if i == len(exits)-1 {
+				sep = ""
+			}
+			fmt.Fprintf(&b, "  (%s, %d, %v)%s\n", leanStr(e.fn), e.line, e.released, sep)
 		}
 		b.WriteString("]\n")
 		b.WriteString(footer("C15"))
